@@ -114,10 +114,16 @@ def subst(obj, s):
 
 
 def check_case(ctx, c, label=""):
+    from ..attrprog import shared_html_intact
+
     try:
         tag, model = run_case(c)
     except Exception as e:
         ctx.violation("attr-supply-raises", "%s: supplying attributes raised %r" % (label, e), {"case": c})
+        return
+    changed = shared_html_intact()
+    if changed:
+        ctx.violation("shared-html-constant-changed", "%s: an HTML() object used as an attribute value was changed: now differs from %r" % (label, changed[0]), {"case": c})
         return
     outs = [tag.get_html_string()]
     if ctx.rng.random() < 0.2:
@@ -176,7 +182,10 @@ def rand_value(rng, hostile_p=0.6):
             v_["sub"] = True
         return v_
     if r < hostile_p + 0.12:
-        return HV(rng.choice(["h", "a&amp;b", "x y", "&lt;i&gt;", "50%", "q=1&r=2", ""]))
+        v_ = HV(rng.choice(["h", "a&amp;b", "x y", "&lt;i&gt;", "50%", "q=1&r=2", ""]))
+        if rng.random() < 0.5:
+            v_["shared"] = True   # one HTML() constant object used for many elements
+        return v_
     if r < hostile_p + 0.2:
         return N(gen.number_of(rng))
     return rng.choice([TRUE, NONE, FALSE, S("")])
@@ -213,7 +222,7 @@ def rand_case(rng):
             ops.append({"op": "add_style", "v": v, "prepend": rng.random() < 0.5})
     name = rng.choice(["div", "span", "img", "input", "x-y", "a", "svg:g"])
     return {"name": name, "via": rng.choice(["fn", "Tag"]), "ctor": {"args": args, "kw": kw}, "ops": ops,
-            "children": rng.random() < 0.3}
+            "children": rng.random() < 0.3, "after_failures": rng.randint(1, 5) if rng.random() < 0.15 else 0}
 
 
 def run(ctx):
